@@ -104,6 +104,14 @@ func checkUVScore(c uvCase) *vk.Failure {
 					ps = scale // location-like parameters
 				}
 				hp := math.Min(1e-3*ps, dist/8)
+				if s.name == "Triangle" {
+					// keep a <= c <= b under the perturbation
+					for _, gap := range []float64{p[2] - p[0], p[1] - p[2]} {
+						if gap > 0 {
+							hp = math.Min(hp, gap/4)
+						}
+					}
+				}
 				f := func(v float64) float64 {
 					pp := append([]float64(nil), p...)
 					pp[i] = v
@@ -159,7 +167,7 @@ func checkUVScore(c uvCase) *vk.Failure {
 }
 
 func TestUVScore(t *testing.T) {
-	vk.Run(t, "uv-score", vk.Opts{Quick: 3000, Thorough: 60000, NoCrumb: true}, func(t *rapid.T) uvCase {
+	vk.Run(t, "uv-score", vk.Opts{Quick: 6000, Thorough: 100000, NoCrumb: true}, func(t *rapid.T) uvCase {
 		return drawUV(t, func(s *uvSpec) bool {
 			d := s.mk(probeParams(s), nil)
 			_, a := d.(scorer)
